@@ -100,6 +100,8 @@ def run_c12(ctx):
     hn, hd = (60, 14) if ctx.quick else (1200, 30)
     hb, _ = tlc.run_sim("SimEdit.tla", "SimEdit.cfg", ctx.work, num=hn, depth=hd, seed=ctx.seed + 12)
     mb, _ = tlc.run_sim("SimEdit.tla", "SimMux.cfg", ctx.work, num=hn // 3, depth=hd, seed=ctx.seed + 13)
+    rb, _ = tlc.run_sim("SimEdit.tla", "SimReuse.cfg", ctx.work, num=hn // 2, depth=13, seed=ctx.seed + 14)
+    mb = mb + rb
     for states in hb + mb:
         sh = drv_edit.new_system()
         for st in states:
@@ -284,6 +286,8 @@ def run_c16(ctx):
                 except Exception:
                     pass
         mb, _ = tlc.run_sim("SimEdit.tla", "SimMux.cfg", ctx.work, num=num // 4, depth=depth, seed=ctx.seed + 8)
+        rb, _ = tlc.run_sim("SimEdit.tla", "SimReuse.cfg", ctx.work, num=num // 4, depth=13, seed=ctx.seed + 9)
+        mb = mb + rb
         n = drv_edit.replay_sim(rec, behs + mb, analyses=at_end, mid=mid, rng=rng)
         res.extra["sim_replay"] = {"behaviours": len(behs) + len(mb), "depth": depth, "calls": n}
         # every state of the bounded edit graph, reached along a shortest accepted history
